@@ -67,7 +67,8 @@ def run_check(prop, repo_dir):
     env["VERIF_SENSITIVITY"] = "1"
     p = subprocess.run([os.path.join(VERIF, "check"), prop, "quick"], env=env, capture_output=True, text=True, timeout=3000)
     viol = [l for l in p.stdout.splitlines() if l.startswith("VIOLATION")]
-    return p.returncode, viol, p.stdout[-1500:]
+    detail = [l.strip()[:260] for l in p.stdout.splitlines() if l.startswith("  violation:")]
+    return p.returncode, viol + detail, p.stdout[-1500:]
 
 
 def with_worktree(fn):
@@ -88,12 +89,16 @@ def main(names):
         if names and name not in names:
             continue
         todo.append(("mutant", name, prop, (path, old, new)))
-    for meta_path in sorted(glob.glob(os.path.join(VERIF, "seeded", "*", "meta.json"))):
-        name = os.path.basename(os.path.dirname(meta_path))
+    for patch_path in sorted(glob.glob(os.path.join(VERIF, "seeded", "*", "patch.diff"))):
+        name = os.path.basename(os.path.dirname(patch_path))
         if names and name not in names:
             continue
-        meta = json.load(open(meta_path))
-        todo.append(("seeded", name, meta["property"], os.path.join(os.path.dirname(meta_path), "patch.diff")))
+        meta_path = os.path.join(os.path.dirname(patch_path), "meta.json")
+        if os.path.exists(meta_path):
+            prop = json.load(open(meta_path))["property"]
+        else:
+            prop = "C10" if name[0] in "ac" else "C16"
+        todo.append(("seeded", name, prop, patch_path))
     ok = True
     for kind, name, prop, payload in todo:
         def job(wt):
@@ -111,8 +116,8 @@ def main(names):
             return run_check(prop, wt)
         rc, viol, tail = with_worktree(job)
         caught = rc == 1 and bool(viol)
-        results[name] = {"property": prop, "kind": kind, "exit": rc, "caught": caught, "violations": viol[:3]}
-        print("%-40s %s exit=%s %s" % (name, "CAUGHT" if caught else "MISSED", rc, viol[:1] or tail[-300:].replace("\n", " | ")), flush=True)
+        results[name] = {"property": prop, "kind": kind, "exit": rc, "caught": caught, "violations": viol[:8]}
+        print("%-40s %s exit=%s %s" % (name, "CAUGHT" if caught else "MISSED", rc, [v for v in viol if not v.startswith("VIOLATION")][:4] or tail[-300:].replace("\n", " | ")), flush=True)
         ok = ok and caught
     out = os.path.join(VERIF, "selftest", "sensitivity_last.json")
     with open(out, "w") as f:
